@@ -81,6 +81,8 @@ def run_check(prop: str, tier: str, verif_seed: int, runs: int | None, shrink_en
             from . import enum_c11
 
             extra = enum_c11.run(pools, tier, verif_seed, deadline, known)
+        if prop == "C10":
+            extra = c10_grid(pools, verif_seed, tier, known)
         if prop in ("C09", "C12"):
             from . import enum_grid
 
@@ -108,6 +110,45 @@ def run_check(prop: str, tier: str, verif_seed: int, runs: int | None, shrink_en
         pools.shutdown()
         shutil.rmtree(run_base, ignore_errors=True)
     return rc
+
+
+def c10_grid(pools, verif_seed, tier, known):
+    """C10: every solver class on every shipped problem (rebuilt from YAML), each combination
+    once (quick) or six times (thorough) with seeded parameters, histories and overrides."""
+    from .check import split_known
+
+    reps = 1 if tier == "quick" else 6
+    futs = []
+    for rep in range(reps):
+        for cls in P.DET_SOLVERS:
+            for kind in ("forest", "de_moor", "hendrix", "mirjalili"):
+                s = P.run_seed(f"C10-grid-{cls}-{kind}", verif_seed, rep)
+                futs.append((cls, kind, s, pools.submit_custom(1, "mdpsim.cases.run_case_forced", "C10", s, {"cls": cls, "kind": kind})))
+    out = {"violations": [], "known": {}, "evaluations": 0, "distinct_nontrivial": 0, "samples": [], "harness_errors": 0, "x_grid": {"combinations": {}, "space": "5 solver classes x 4 shipped problems"}}
+    for cls, kind, s, f in futs:
+        try:
+            r = f.result(timeout=900)
+        except BaseException as e:  # noqa: BLE001
+            r = {"verdict": "harness_error", "error": f"worker failed: {e}"}
+        key = f"{cls}/{kind}"
+        if r["verdict"] == "harness_error":
+            out["harness_errors"] += 1
+            print(f"HARNESS-ERROR C10 grid {key} seed={s}: {str(r.get('error'))[:1000]}")
+            continue
+        out["evaluations"] += 1
+        out["distinct_nontrivial"] += 1 if r.get("nontrivial") else 0
+        out["x_grid"]["combinations"][key] = out["x_grid"]["combinations"].get(key, 0) + 1
+        if r["verdict"] == "violation":
+            real, kn = split_known("C10", r["violations"], known)
+            for v, kk in kn:
+                out["known"][kk["id"]] = out["known"].get(kk["id"], 0) + 1
+            if real:
+                r["devices"] = 1
+                out["violations"].append((r, real))
+        if not out["samples"] and r.get("plan"):
+            out["samples"].append({"grid_combination": key, "world": r["plan"]["world"], "lifetimes": r["plan"]["lifetimes"]})
+    out["rule"] = "; plus a grid phase (x_grid): every solver class on every shipped problem"
+    return out
 
 
 def fidelity_phase(pools, prop, verif_seed, k, known):
